@@ -106,6 +106,36 @@ def origin_shift(spec):
     return latt.Spec(spec.label, spec.A, spec.g, basis, spec.spins, spec.Aq)
 
 
+def magnetic_spec(rng, dim):
+    """magnetic primitive cells whose CHEMICAL cell is smaller: an index-2 magnetic supercell (latt.afm_supercell) of a random crystal with
+    2-3 species in which some species reverse their moment in the second half (antiferromagnetic sublattices) and the others keep it
+    (ferromagnetic sublattices: ferrimagnet); scalar or vector moments.  Only translations that map every spin onto an EQUAL spin are
+    symmetry translations, so this cell must survive reduce() although positions alone have half the period."""
+    base = latt.random_spec(rng, dim=dim, maxatoms=3, nchem_max=3, spin_mode="none")
+    nchem = len(base.basis)
+    kind = rng.choice(["afm", "ferri", "ferri"]) if nchem >= 2 else "afm"
+    flip = [True] * nchem
+    if kind == "ferri":
+        flip = [rng.random() < 0.5 for _ in range(nchem)]
+        if all(flip): flip[rng.randrange(nchem)] = False
+        if not any(flip): flip[rng.randrange(nchem)] = True
+    if rng.random() < 0.5:
+        bs = [[rng.choice([1, 1, 2]) for _ in ul] for ul in base.basis]
+    else:
+        ax = [tuple(1.0 if k == a else 0.0 for k in range(dim)) for a in range(dim)] + [tuple([1 / np.sqrt(dim)] * dim)]
+        bs = [[rng.choice(ax) for _ in ul] for ul in base.basis]
+    w = tuple(rng.choice([0, 1]) for _ in range(dim))
+    if not any(w): w = tuple([1] + [0] * (dim - 1))
+    sp = latt.afm_supercell(base, w, bs, label=base.label + "+" + kind, flip=flip)
+    return sp
+
+
+def spin_multiset(spins):
+    """sorted per-species list of spins (scalars or vectors), rounded"""
+    if spins is None: return None
+    return [sorted(tuple(np.round(np.atleast_1d(np.asarray(x, dtype=float)), 6).tolist()) for x in sl) for sl in spins]
+
+
 def random_supercell_matrix(rng, d, negative=False, skew=False):
     """integer matrix with entries -3..3 and det 2..6 (or -2..-6); skew: right-multiplied by 2-4 elementary shears with
     multipliers +-1, +-2 (same sublattice, sheared description, entries up to +-8)"""
@@ -146,6 +176,7 @@ def supercell(rng, nr, spec, N, noise, disp=None):
         basis.append([np.array([float(x) for x in out[i]]) + (nr.uniform(-noise, noise, d) if noise else 0.0) for i in idx])
         spins.append([sp[i] for i in idx])
     A = spec.A @ np.array(N, dtype=float)
+    spins = [[(np.array(x, dtype=float) if isinstance(x, tuple) else x) for x in sl] for sl in spins]
     return A, basis, (spins if spec.spins is not None else None)
 
 
@@ -202,6 +233,14 @@ def run(ck):
     named = {s_.label: s_ for s_ in latt.named_specs()}
     forced = [(named["sc"], [[1, -2, -1], [-1, -2, 1], [-1, -3, 2]]), (named["hcp"], [[-1, 0, 0], [-3, -1, 3], [-1, 0, 2]]),
               (named["fcc"], [[3, 5, -2], [1, 2, 1], [-2, -1, 7]]), (named["square"], [[5, 8], [3, 5]]), (named["tria"], [[7, 3], [2, 2]])]
+    o_, h_, i_ = Fr(0), Fr(1, 2), Fr(1)
+    fAq = [[Fr(2), o_, o_], [o_, Fr(11, 10), o_], [o_, o_, Fr(13, 10)]]
+    ferri = latt.Spec("ferrimagnet-doubled", np.array([[float(x) for x in r] for r in fAq]), latt.fmat_mul(latt.fmat_T(fAq), fAq),
+                      [[(o_, o_, o_), (h_, o_, o_)], [(o_, h_, h_), (h_, h_, h_)]], [[1, 1], [1, -1]], fAq)
+    ferriv = latt.Spec("ferrimagnet-doubled-vector", ferri.A, ferri.g, ferri.basis,
+                       [[(0., 0., 1.), (0., 0., 1.)], [(1., 0., 0.), (-1., 0., 0.)]], fAq)
+    forced += [(ferri, [[1, 0, 0], [0, 1, 0], [0, 0, 1]]), (ferri, [[2, 0, 0], [0, 1, 0], [0, 0, 1]]), (ferri, [[1, 0, 1], [0, 1, 1], [-1, 1, 3]]),
+               (ferriv, [[1, 0, 0], [0, 2, 0], [0, 0, 1]]), (named["b2-afm"], [[2, 1, 0], [0, 1, 0], [0, 0, 1]])]
     stats["forced"] = len(forced)
     ncases += len(forced)
     while stats["cases"] < ncases and tries < 20 * ncases:
@@ -214,12 +253,15 @@ def run(ck):
         else:
             dim = 2 if rng.random() < 0.35 else 3
             spec = latt.random_spec(rng, dim=dim, maxatoms=4, nchem_max=3, spin_mode=rng.choice(["none", "none", "scalar"]))
-            if rng.random() < 0.2:
+            pick = rng.random()
+            if pick < 0.2:
                 spec = pseudo_translation_spec(rng, spec)
+            elif pick < 0.4:
+                spec = magnetic_spec(rng, dim); stats["magnetic"] = stats.get("magnetic", 0) + 1
             if latt.pure_translations(spec_view(spec)):
                 stats["rejected-nonprimitive"] += 1; continue
             thr = rng.choice([1e-8, 1e-8, 1e-6, 1e-5])
-            if rng.random() < 0.25 and spec.natoms() >= 2:
+            if rng.random() < 0.25 and spec.natoms() >= 2 and not (pick >= 0.2 and pick < 0.4):   # (not for the magnetic index-2 cells: their own cell is skewed)
                 # family "uniform displacement": plain diagonal supercell (det 2..4), ONE atom displaced by the same vector in
                 # all its copies, amplitude 0.45 or 0.6 x threshold per component in SUPERCELL unit coordinates (below the threshold there;
                 # stretched by the reduction factor in the reduced cell, where the code's scaled threshold must still accept it)
@@ -269,7 +311,8 @@ def run(ck):
             report("Crystal(primitive description) raised %s: %s" % (type(e).__name__, e), replay, "c19-primitive-exception"); continue
         cprim = [len(ul) for ul in spec.basis]
         if [len(ul) for ul in prim.basis] != cprim:
-            report("primitive description itself was changed by reduction", replay, "c19-primitive-changed"); continue
+            report("the primitive description itself was changed by reduction: atoms per species %s -> %s (a translation that does not map "
+                   "spins / atoms onto equal ones was accepted)" % (cprim, [len(ul) for ul in prim.basis]), replay, "c19-primitive-changed")
         try:
             res = crystal.Crystal(A, basis, spins=spins, threshold=thr) if thr != 1e-8 else crystal.Crystal(A, basis, spins=spins)
         except ArithmeticError as e:
@@ -290,6 +333,11 @@ def run(ck):
             report("volume per atom %.12g differs from the primitive description's %.12g" % (vpa, vpa_exp), dict(replay, **summary), "c19-volume-per-atom")
         if cres != cprim:
             report("atoms per species %s differ from the primitive cell's %s" % (cres, cprim), dict(replay, **summary), "c19-species-count")
+        if spec.spins is not None and cres == cprim:
+            ms_exp, ms_res = spin_multiset(spec.fspins()), spin_multiset(res.spins)
+            if ms_res is None or any(len(a) != len(b) or not np.allclose(np.array(a), np.array(b), atol=1e-6) for a, b in zip(ms_exp, ms_res)):
+                report("spins of the reduced crystal %s differ from the magnetic primitive description's %s" % (ms_res, ms_exp),
+                       dict(replay, **summary), "c19-spins")
         # reduce() scales the threshold by M/|T_m| at every step (unit coordinates are stretched by that factor); each step divides the
         # atoms by the same factor, so a fully reduced result must carry threshold x (atoms in / atoms out)
         thr_exp = thr * (sum(len(ul) for ul in basis) / float(res.N))
